@@ -1470,3 +1470,31 @@ B('k18_ctx_holds_sorted_routes_local', ['C18'], 'R18.a', (META, GRIS, GRIS.repla
     "    return ret\n", "    ret.append({'all': tuple(routes)})\n    return ret\n")))
 T('k18_ctx_holds_route_count', ['C18'], (META, "        return {'routes': get_route_infos(_application),", "        return {'routes': get_route_infos(_application), 'route_count': len(_application.routes),"))
 T('k18_route_info_holds_mw_reprs', ['C18'], (META, "        r_info['args'] = get_route_arg_info(r)\n", "        r_info['args'] = get_route_arg_info(r)\n        r_info['mws'] = [repr(mw) for mw in r.middlewares]\n"))
+
+# ---- R18.c: the handler neither reads what only the protected block binds nor repeats one of its lookups --------------------
+B('k18_handler_reads_try_bound_name', ['C18'], 'R18.c', (META, "            except Exception as e:\n                cur['exc_content'] = repr(e)\n",
+                                                               "            except Exception as e:\n                cur['exc_content'] = repr(e)\n                cur['had_context'] = bool(cur_context)\n"))
+B('k18_handler_extends_try_bound_name', ['C18'], 'R18.c', (META, "                peri_ctx = {'exc_content': repr(e)}\n", "                peri_ctx = dict(peri_ctx, exc_content=repr(e))\n"))
+B('k18_handler_repeats_lookup_render', ['C18'], 'R18.c', (META, "            except Exception as e:\n                cur['exc_content'] = repr(e)\n",
+                                                                "            except Exception as e:\n                cur['exc_content'] = repr(e)\n                context[peri.group_key]['failed'] = True\n"))
+B('k18_handler_repeats_lookup_get_main', ['C18'], 'R18.c', (META, GMAIN, '''        for peri in self.peripherals:
+            full_ctx.setdefault(peri.group_key, {})
+            try:
+                full_ctx[peri.group_key].update(inject(peri.get_context, kwargs))
+            except Exception as e:
+                full_ctx[peri.group_key].update({'exc_content': repr(e)})
+        return full_ctx
+'''.replace("full_ctx.setdefault(peri.group_key, {})\n            try:\n                full_ctx[peri.group_key]", "try:\n                full_ctx.setdefault(peri.group_key, {})\n                full_ctx[peri.group_key]")))
+T('k18_handler_lookup_before_try', ['C18'], (META, GMAIN, '''        for peri in self.peripherals:
+            group_ctx = full_ctx.setdefault(peri.group_key, {})
+            try:
+                group_ctx.update(inject(peri.get_context, kwargs))
+            except Exception as e:
+                group_ctx.update({'exc_content': repr(e)})
+        return full_ctx
+'''))
+T('k18_handler_reads_name_bound_before_try', ['C18'], (META, "            try:\n                cur_context = context[peri.group_key]\n                kwargs = {'context': cur_context}\n",
+                                                             "            cur_context = context.get(peri.group_key, {})\n            try:\n                kwargs = {'context': cur_context}\n"),
+  (META, "            except Exception as e:\n                cur['exc_content'] = repr(e)\n", "            except Exception as e:\n                cur['exc_content'] = repr(e)\n                cur['had_context'] = bool(cur_context)\n"))
+T('k18_handler_repeats_lookup_nested_try', ['C18'], (META, "            except Exception as e:\n                cur['exc_content'] = repr(e)\n",
+                                                           "            except Exception as e:\n                cur['exc_content'] = repr(e)\n                try:\n                    context[peri.group_key]['failed'] = True\n                except KeyError:\n                    pass\n"))
